@@ -14,6 +14,7 @@ CLAIMED = {
                 text="Seeded interleaved API histories over a pool of generator instances and caller-owned event objects (fresh, reused, pre-filled, shrunk, copied), with cancellation, "
                      "allocation-failure and steering faults attached to operations; every successful shot is compared field by field with the canonical history for the same "
                      "(configuration, deviate stream); objects are also re-configured in place after a rejected initialise, and post-generation operation objects are caller-owned and shared between generators. "
+                     "A second batch runs every history in a freshly forked process and takes the reference from a process forked before the run touched the library (nothing happened before). "
                      "Violations are shrunk and replayed in a fresh process (with the worker's history as a prelude when process-wide state is involved) before being reported.",
                 note="Trusted: the reference is the SUT itself in the canonical history (fresh instance, fresh event), so a defect that affects every history identically is invisible here (C01/C02 territory)."),
     "C08": dict(level="exploration", ref="DESIGN.md section 3 (C08)",
